@@ -50,6 +50,24 @@ pub(crate) fn utf8_range_to_position(text: &str, range: Range<usize>) -> lsp_typ
     lsp_types::Range { start, end }
 }
 
+/// Verification hooks: public access to the position conversions (feature `verif` only).
+#[cfg(feature = "verif")]
+pub mod verif {
+    use std::ops::Range;
+
+    pub fn position_to_utf8(text: &str, position: lsp_types::Position) -> usize {
+        super::position_to_utf8(text, position)
+    }
+
+    pub fn utf8_to_position(text: &str, index: usize) -> lsp_types::Position {
+        super::utf8_to_position(text, index)
+    }
+
+    pub fn utf8_range_to_position(text: &str, range: Range<usize>) -> lsp_types::Range {
+        super::utf8_range_to_position(text, range)
+    }
+}
+
 #[test]
 fn test_position_to_utf8() {
     assert_eq!('😉'.len_utf8(), 4);
